@@ -99,6 +99,8 @@ func matchOutput(real, want, input string, invalidInput bool) string {
 type diffHooks struct {
 	// beforeRequest may manipulate both sides (e.g. clear TERMINATE); i is the request index
 	beforeRequest func(i int, real *app.Session, m *model.Session)
+	// useDb: serve the application through resource.DbResource over a memdb
+	useDb bool
 }
 
 // modelDiff serves the history on the real engine and on the model and compares.
@@ -109,7 +111,9 @@ func modelDiff(a *app.App, inputs []BS, mode app.Mode, asp diffAspects, hooks *d
 		storage, cleanup = newStorage(mode.Backend)
 	}
 	defer cleanup()
-	real := app.NewSession(app.NewShared(a), mode, storage)
+	shared := app.NewShared(a)
+	shared.UseDb = hooks != nil && hooks.useDb
+	real := app.NewSession(shared, mode, storage)
 	m := model.New(a, mode.Kind == "persist")
 	seenNodes := map[string]int{}
 	for i, inb := range inputs {
